@@ -183,6 +183,21 @@ def mutation(draw, kind: str, info: dict, cur: Any):
         return v, lab
     if kind == "nonsettable":
         p = info["p"]
+        if p["pk"] in ("const", "physconst") and draw(st.integers(0, 9)) < 6:
+            # a value that is *nearly* the constant: it is not the constant, so it cannot be represented
+            c = p["v"]
+            if isinstance(c, (bytes, bytearray)):
+                c = bytes(c)
+                near = [c.rstrip(b"\x00"), c + b"\x00", c[:-1], b"\x00" + c, bytes(reversed(c)), c[:-1] + bytes([c[-1] ^ 1])]
+            elif isinstance(c, bool) or not isinstance(c, (int, float)):
+                near = [str(c) + " ", str(c).lower(), str(c)[:-1]]
+            elif isinstance(c, int):
+                near = [c + 1, c - 1, -c if c else 1, c ^ 0x80, float(c) + 0.5, c + (1 << 8), c + (1 << 32)]
+            else:
+                near = [c + 1.0, -c if c else 1.0, c * 2 + 1]
+            near = [x for x in near if x != c]
+            if near:
+                return pick(near), "const-near-miss:" + p["pk"]
         v = pick([12345, "x", b"\x01", -1, [1]])
         return v, "nonsettable-given:" + p["pk"]
     if kind == "tablekey":
